@@ -168,6 +168,7 @@ def r15_datafile_order(ctx, rule='R15'):
     lp = lambda l: l is loop
     preds = {'FINALIZE_FILE': call_named('finalize_file'),
              'TELL': call_named('tell'),
+             'GETSIZE': ext(ctx, 'os.path.getsize', 'os.stat', 'os.fstat'),
              'HASH': call_named('hash_handler'),
              'CLOSE': lambda n: isinstance(n, ast.Call) and isinstance(n.func, ast.Attribute) and n.func.attr == 'close',
              'WRITE_OUT': call_named('write_file_to_output'),
@@ -175,23 +176,38 @@ def r15_datafile_order(ctx, rule='R15'):
     pes, problems = check_order(
         ctx, rule, rp, preds,
         not_after=[('HASH', 'CLOSE'), ('TELL', 'CLOSE')],
-        before=[('FINALIZE_FILE', 'TELL'), ('FINALIZE_FILE', 'HASH'), ('TELL', 'CLOSE'),
+        before=[('FINALIZE_FILE', 'TELL'), ('FINALIZE_FILE', 'HASH'), ('FINALIZE_FILE', 'GETSIZE'), ('CLOSE', 'GETSIZE'),
                 ('FINALIZE_FILE', 'WRITE_OUT'), ('CLOSE', 'WRITE_OUT'), ('WRITE_OUT', 'UNLINK')],
-        after_loop=[(x, lp) for x in ('FINALIZE_FILE', 'TELL', 'HASH', 'CLOSE', 'WRITE_OUT', 'UNLINK')],
-        forbid_ctx=['WRITE_OUT', 'FINALIZE_FILE'], required=['FINALIZE_FILE', 'TELL', 'CLOSE', 'WRITE_OUT'],
+        after_loop=[(x, lp) for x in ('FINALIZE_FILE', 'TELL', 'GETSIZE', 'HASH', 'CLOSE', 'WRITE_OUT', 'UNLINK')],
+        forbid_ctx=['WRITE_OUT', 'FINALIZE_FILE'], required=['FINALIZE_FILE', 'CLOSE', 'WRITE_OUT'],
         once=['WRITE_OUT', 'FINALIZE_FILE'])
+    # the size is measured on every normal path: tell() on the still open handle, or a stat of the closed file
+    for p_, evs in pes:
+        if p_.term in ('fall', 'return') and not any(e.name in ('TELL', 'GETSIZE') for e in evs):
+            problems[('size measured (tell() before close, or getsize after close)', rp.node)] = p_
     report_order(ctx, rule, rp, problems, pes,
                  'finalize_file < tell/hash < close < write_file_to_output < unlink, all after the row loop',
-                 'size / hash / copy of a data file are taken at the wrong moment')
+                 'size / hash / copy of a data file are taken at the wrong moment (a text-mode file that is still open is not '
+                 'flushed: its on-disk size is smaller than what was written)')
     # same temp-file value
     params = rp.params
     facts = Facts(rp, include_nested=False)
     tmp = None
     for n in own_nodes(rp.node):
+        if isinstance(n, ast.Call) and isinstance(n.func, ast.Attribute) and n.func.attr == 'hash_handler' and n.args:
+            tmp = tmp or pseudo(n.args[0])
+    for n in own_nodes(rp.node):
         if isinstance(n, ast.Call) and isinstance(n.func, ast.Attribute) and n.func.attr == 'tell':
-            tmp = pseudo(n.func.value)
+            tmp = tmp or pseudo(n.func.value)
     if tmp is None:
-        raise AnalysisError('%s: .tell() receiver not found' % rp.qualname)
+        raise AnalysisError('%s: temp file (argument of hash_handler / receiver of tell) not found' % rp.qualname)
+    for n in own_nodes(rp.node):
+        if isinstance(n, ast.Call) and ctx.res.external_name(n) in ('os.path.getsize', 'os.stat'):
+            ctx.run.check(n.args and tmp in facts.roots(n.args[0]), rule, where(ctx.repo, n), rp.qualname, n,
+                          'the size is taken from a file other than the temp file that is hashed and copied out')
+        if isinstance(n, ast.Call) and isinstance(n.func, ast.Attribute) and n.func.attr == 'tell':
+            ctx.run.check(pseudo(n.func.value) == tmp, rule, where(ctx.repo, n), rp.qualname, n,
+                          'tell() is called on a file other than the temp file that is hashed and copied out')
     for n in own_nodes(rp.node):
         if isinstance(n, ast.Call) and isinstance(n.func, ast.Attribute):
             if n.func.attr == 'hash_handler':
